@@ -10,6 +10,7 @@ results coincide.
 -/
 import FDAProofs.Lemmas.Irregular
 import FDAProofs.Lemmas.Repr
+import FDAModel.Generated.IrregularGuards
 
 namespace C15
 open FDA FDA.Tab FDA.Irr
@@ -237,6 +238,60 @@ theorem interp_linear (c : List (ℚ × ℚ × ℚ)) (a b x : ℚ) :
     interp (c.map fun p => (p.1, a * p.2.1 + b * p.2.2)) x =
       a * interp (c.map fun p => (p.1, p.2.1)) x + b * interp (c.map fun p => (p.1, p.2.2)) x :=
   FDA.Irr.interp_linear c a b x
+
+/-! ## Standardisation: guarded division, NaN-preserving buffer -/
+
+/-- A missing sample stays missing whatever the deviation (repaired buffer). -/
+theorem standardize_keeps_missing (s : Option ℚ) : stdCell none s = none := by
+  unfold stdCell
+  cases h : stdGuard s <;> simp [stdBuffer]
+
+/-- An observed sample comes back as a number, never NaN: a NaN or tiny deviation fails the
+guard and the buffer holds 0 there. -/
+theorem standardize_observed_finite (x : ℚ) (s : Option ℚ) : (stdCell (some x) s).isSome = true := by
+  unfold stdCell
+  cases hs : s with
+  | none => simp [stdGuard, stdBuffer]
+  | some y => by_cases h : stdGuard (some y) <;> simp [h, stdBuffer]
+
+/-- The unrepaired zero-filled buffer turned a missing sample into an observed 0 wherever
+the guard fails (e.g. a NaN deviation): the motivation of the repair. -/
+theorem standardize_old_fills_missing : stdCellOld none none = some 0 := by
+  simp [stdCellOld, stdGuard, stdBufferOld]
+
+/-- `standardize` is encoding independent (deviations `sd` on the union grid, picked through
+the `np.isin` masks; grid without duplicates). -/
+theorem standardize_enc_independent (g : List ℚ) (sd : List (Option ℚ)) (r : Row)
+    (hlen : r.length = g.length) (hsd : sd.length = g.length) (hnd : g.Nodup) :
+    dropNaN (standardizeNaN g sd (encNaN g r)) = standardizeRag g sd (encRagged g r) := by
+  unfold dropNaN standardizeNaN standardizeRag encNaN encRagged
+  simp only
+  exact cell_ragged stdCell (fun x s => (stdCell (some x) s).getD 0) standardize_keeps_missing
+    (fun x s => by
+      have h := standardize_observed_finite x s
+      cases hc : stdCell (some x) s with
+      | none => rw [hc] at h; simp at h
+      | some y => simp)
+    g r sd g ((ragged g r).map Prod.fst) hlen hsd hnd (fun _ h => h) (fun _ _ => Iff.rfl)
+
+/-! ## Translator tie: guards and bookkeeping re-read from the source -/
+
+/-- The guard and the output buffer of `standardize`, the binned-mean switch of `mean` (on the
+length of the pooled long table) and the smoothing-weight rule of `covariance` (masked on the
+raw covariance), as `harness/c15_translate.py` reads them off the source on every run, ARE
+the model's. -/
+theorem guards_match_source :
+    (∀ s, FDA.Generated.IrregularGuards.stdGuardSrc s = stdGuard s) ∧
+    (∀ v, FDA.Generated.IrregularGuards.stdBufferSrc v = stdBuffer v) ∧
+    (∀ a n, FDA.Generated.IrregularGuards.approxSwitchSrc a n = approxSwitch a n) ∧
+    FDA.Generated.IrregularGuards.approxCountsPooledSamples = true ∧
+    (∀ c, FDA.Generated.IrregularGuards.covWeightSrc c = covWeight c) ∧
+    FDA.Generated.IrregularGuards.covWeightMaskOnCov = true := by
+  refine ⟨?_, ?_, ?_, rfl, ?_, rfl⟩
+  · intro s; cases s <;> rfl
+  · intro v; cases v <;> rfl
+  · intro a n; rfl
+  · intro c; rfl
 
 /-! ## Complete data coincide with the dense twin -/
 
